@@ -740,7 +740,7 @@ class BackendZ3(Backend):
 
                 arg_int = self._abstract_bv_val(ctx, arg_ast)
                 if neg:
-                    arg_int = (1 << arg_size) - arg_int
+                    arg_int = ((1 << arg_size) - arg_int) & ((1 << arg_size) - 1)
                 res <<= arg_size
                 res |= arg_int
             return res
@@ -793,8 +793,12 @@ class BackendZ3(Backend):
         sbits = z3.Z3_fpa_get_sbits(ctx, sort) - 1  # includes sign bit
 
         if op_name == "FPVal":
-            # TODO: do better than this
-            fp_mantissa = int(z3.Z3_fpa_get_numeral_significand_string(ctx, ast))
+            # the significand string is a decimal fraction ("1.5"); the trailing significand bits and the biased
+            # exponent are what the encoding needs
+            fp_mantissa_c = ctypes.c_uint64()  # pylint: disable=no-value-for-parameter
+            if not z3.Z3_fpa_get_numeral_significand_uint64(ctx, ast, ctypes.byref(fp_mantissa_c)):
+                raise BackendError("Unable to read the significand of a Z3 floating point numeral")
+            fp_mantissa = fp_mantissa_c.value
             fp_exp = int(z3.Z3_fpa_get_numeral_exponent_string(ctx, ast, True))
             fp_sign_c = ctypes.c_int()  # pylint: disable=no-value-for-parameter
             z3.Z3_fpa_get_numeral_sign(ctx, ast, ctypes.byref(fp_sign_c))
